@@ -52,10 +52,10 @@ def cnt_axioms(st, seq: ty.SeqV):
     arr, n = seq.arrs[-1], seq.len
     x = z3.Const(ty.fresh_name("cx"), R)
     i = z3.Int(ty.fresh_name("ci"))
-    st.assume(z3.ForAll([x], z3.And(CNT(arr, n, x) >= 0, z3.Implies(n <= 0, CNT(arr, n, x) == 0)), patterns=[CNT(arr, n, x)]))
-    st.assume(z3.ForAll([x], z3.Implies(CNT(arr, n, x) > 0, z3.And(WIT(arr, n, x) >= 0, WIT(arr, n, x) < n,
+    st.assume(ty.FA([x], z3.And(CNT(arr, n, x) >= 0, z3.Implies(n <= 0, CNT(arr, n, x) == 0)), patterns=[CNT(arr, n, x)]))
+    st.assume(ty.FA([x], z3.Implies(CNT(arr, n, x) > 0, z3.And(WIT(arr, n, x) >= 0, WIT(arr, n, x) < n,
                                                                  z3.Select(arr, WIT(arr, n, x)) == x)), patterns=[CNT(arr, n, x)]))
-    st.assume(z3.ForAll([i], z3.Implies(z3.And(i >= 0, i < n), CNT(arr, n, z3.Select(arr, i)) > 0), patterns=[z3.Select(arr, i)]))
+    st.assume(ty.FA([i], z3.Implies(z3.And(i >= 0, i < n), CNT(arr, n, z3.Select(arr, i)) > 0), patterns=[z3.Select(arr, i)]))
 
 
 def prec_array(ex, st):
@@ -71,7 +71,7 @@ def heap_min_axiom(ex, st, seq):
     i = z3.Int(ty.fresh_name("hi"))
     ts, rf, n = seq.arrs[0], seq.arrs[1], seq.len
     st.assume(z3.Implies(z3.And(heap_pred(ex, st, seq), n > 0),
-                         z3.ForAll([i], z3.Implies(z3.And(i >= 0, i < n),
+                         ty.FA([i], z3.Implies(z3.And(i >= 0, i < n),
                                                    z3.Not(lt(P, z3.Select(ts, i), z3.Select(rf, i), z3.Select(ts, 0), z3.Select(rf, 0)))),
                                    patterns=[z3.Select(rf, i)])))
     st.assume(z3.Implies(n <= 0, heap_pred(ex, st, seq)))
@@ -93,8 +93,8 @@ def _from_old(st, new: ty.SeqV, old: ty.SeqV, extra=None):
                   z3.Select(new.arrs[1], i) == z3.Select(old.arrs[1], src(i)))
     if extra is not None:
         same = z3.Or(same, z3.And(z3.Select(new.arrs[0], i) == extra[0], z3.Select(new.arrs[1], i) == extra[1]))
-    st.assume(z3.ForAll([i], z3.Implies(z3.And(i >= 0, i < new.len), same), patterns=[z3.Select(new.arrs[1], i)]))
-    st.assume(z3.ForAll([i], z3.Implies(z3.And(i >= 0, i < new.len), same), patterns=[z3.Select(new.arrs[0], i)]))
+    st.assume(ty.FA([i], z3.Implies(z3.And(i >= 0, i < new.len), same), patterns=[z3.Select(new.arrs[1], i)]))
+    st.assume(ty.FA([i], z3.Implies(z3.And(i >= 0, i < new.len), same), patterns=[z3.Select(new.arrs[0], i)]))
 
 
 def heappush(ex, st, h, item, node):
@@ -110,7 +110,7 @@ def heappush(ex, st, h, item, node):
     new = _fresh_heap(h, h.len + 1)
     x = z3.Const(ty.fresh_name("px"), R)
     st.assume(heap_pred(ex, st, new))
-    st.assume(z3.ForAll([x], CNT(new.arrs[1], new.len, x) == CNT(h.arrs[1], h.len, x) + z3.If(x == e.ref, 1, 0),
+    st.assume(ty.FA([x], CNT(new.arrs[1], new.len, x) == CNT(h.arrs[1], h.len, x) + z3.If(x == e.ref, 1, 0),
                         patterns=[CNT(new.arrs[1], new.len, x)]))
     st.assume(CNT(new.arrs[1], new.len, e.ref) == CNT(h.arrs[1], h.len, e.ref) + 1)
     _from_old(st, new, h, extra=(ts, e.ref))
@@ -136,7 +136,7 @@ def heappop(ex, st, h, node):
         top = h.at(z3.IntVal(0))
         x = z3.Const(ty.fresh_name("px"), R)
         s2.assume(heap_pred(ex, s2, new))
-        s2.assume(z3.ForAll([x], CNT(new.arrs[1], new.len, x) == CNT(h.arrs[1], h.len, x) - z3.If(x == top[1].ref, 1, 0),
+        s2.assume(ty.FA([x], CNT(new.arrs[1], new.len, x) == CNT(h.arrs[1], h.len, x) - z3.If(x == top[1].ref, 1, 0),
                             patterns=[CNT(new.arrs[1], new.len, x)]))
         s2.assume(CNT(new.arrs[1], new.len, top[1].ref) == CNT(h.arrs[1], h.len, top[1].ref) - 1)
         _from_old(s2, new, h)
@@ -150,6 +150,6 @@ def heappop(ex, st, h, node):
 def append_axiom(st, old: ty.SeqV, new: ty.SeqV, e):
     """python list.append on a Seq(Ref): cnt of the extended list."""
     x = z3.Const(ty.fresh_name("ax"), R)
-    st.assume(z3.ForAll([x], CNT(new.arrs[-1], new.len, x) == CNT(old.arrs[-1], old.len, x) + z3.If(x == e, 1, 0),
+    st.assume(ty.FA([x], CNT(new.arrs[-1], new.len, x) == CNT(old.arrs[-1], old.len, x) + z3.If(x == e, 1, 0),
                         patterns=[CNT(new.arrs[-1], new.len, x)]))
     st.assume(CNT(new.arrs[-1], new.len, e) == CNT(old.arrs[-1], old.len, e) + 1)
